@@ -210,7 +210,7 @@ Lemma prop_good_any r n :
   prop_good r n (fun t => Some (xann t)) = prop_good r n dec_any.
 Proof. unfold prop_good. destruct (find_prop n (r_pss r)) as [[ps raw]|]; reflexivity. Qed.
 
-Lemma object_item_ok nd r : c_is_ok (object_item nd r) = spec_object_ok nd r.
+Lemma object_item_ok g nd r : c_is_ok (object_item g nd r) = spec_object_ok nd r.
 Proof.
   unfold object_item, spec_object_ok.
   destruct (resp_path_cases r) as [(E & P)|(E & p & e & P)]; rewrite P, E; [|reflexivity].
@@ -220,36 +220,39 @@ Proof.
   rewrite V.
   use_opt H n_getlastmodified dec_good tt; [|destruct a; reflexivity].
   use_opt H n_getetag dec_good tt; [|destruct a; reflexivity].
-  use_opt H n_getcontentlength dec_int false; destruct a; reflexivity.
+  use_opt H n_getcontentlength dec_int false; destruct a, g; reflexivity.
 Qed.
 
-Lemma object_item_val nd r o : object_item nd r = COk o -> o = Some (first_href r).
+Lemma object_item_val g nd r o : object_item g nd r = COk o -> o = Some (first_href r).
 Proof.
   unfold object_item.
   destruct (resp_path_cases r) as [(E & P)|(E & p & e & P)]; rewrite P; [|discriminate].
   intros K.
   repeat (apply cbind_ok in K; destruct K as (? & _ & K)).
-  destruct x; congruence.
+  destruct x, g; congruence.
 Qed.
 
-(** the only place where a multi-status can make a client panic: the third-party decoder *)
-Lemma object_item_no_panic nd r :
-  forallb (fun ps => forallb (fun raw => negb (is_lpanic (xann raw))) (ps_props ps)) (r_pss r) = true ->
-  object_item nd r <> CPanic.
+(** the only place where a multi-status can make a client panic: a third-party decoder
+    that is called unguarded *)
+Lemma object_item_no_panic g nd r :
+  g = true \/
+  forallb (fun ps => forallb (fun raw => negb (qeq (xname raw) nd && is_lpanic (xann raw))) (ps_props ps)) (r_pss r) = true ->
+  object_item g nd r <> CPanic.
 Proof.
   intros F. unfold object_item. destruct (resp_path_cases r) as [(E & P)|(E & p & e & P)]; rewrite P; [|discriminate].
   pose proof (entry_ok_success r E) as H.
   destruct (decode_prop_cases r nd (fun t => Some (xann t)) H) as [(a & E1 & G & V)|(e & E1 & _)];
     rewrite E1; cbn [cbind]; [|discriminate].
   np.
+  destruct F as [->|F]; [destruct a; discriminate|].
   assert (is_lpanic a = false) as NP.
   { unfold the_value in V. revert F V. generalize (r_pss r). induction l as [|ps l IH]; simpl; [discriminate|].
     intros F. apply andb_true_iff in F. destruct F as [F1 F2].
     unfold prop_get. destruct (find (fun t => qeq (xname t) nd) (ps_props ps)) as [raw|] eqn:Fd.
-    - intros V. injection V as <-. apply find_some in Fd. destruct Fd as [In _].
-      rewrite forallb_forall in F1. specialize (F1 _ In). now apply negb_true_iff in F1.
+    - intros V. injection V as <-. apply find_some in Fd. destruct Fd as [In Q].
+      rewrite forallb_forall in F1. specialize (F1 _ In). rewrite Q in F1. now apply negb_true_iff in F1.
     - apply IH. exact F2. }
-  destruct a; try discriminate.
+  destruct a, g; try discriminate.
 Qed.
 
 (** SyncCollection: one entry *)
@@ -502,17 +505,19 @@ Proof.
     destruct M as [(-> & E & ->)|(-> & E & ->)]; inversion E; reflexivity.
 Qed.
 
-Lemma report_objects_spec m nd p r :
+Lemma report_objects_spec m g nd p r :
   success (h_status r) = true -> (h_status r =? 207)%N = true ->
-  ((m = MQueryCalendar \/ m = MMultiGetCalendar) /\ nd = n_cal_data \/
-   (m = MQueryAddressBook \/ m = MMultiGetAddressBook) /\ nd = n_card_data) ->
+  ((m = MQueryCalendar \/ m = MMultiGetCalendar) /\ nd = n_cal_data /\ g = true \/
+   (m = MQueryAddressBook \/ m = MMultiGetAddressBook) /\ nd = n_card_data /\ g = false) ->
   ok_spec m p r.
 Proof.
-  intros S N M. apply ok_spec_of.
-  assert (run m p (Resp r) = report_objects nd (Resp r)) as R
-    by (destruct M as [([-> | ->] & ->)|([-> | ->] & ->)]; reflexivity).
+  intros S N M'. apply ok_spec_of.
+  assert ((m = MQueryCalendar \/ m = MMultiGetCalendar) /\ nd = n_cal_data \/
+          (m = MQueryAddressBook \/ m = MMultiGetAddressBook) /\ nd = n_card_data) as M by tauto.
+  assert (run m p (Resp r) = report_objects g nd (Resp r)) as R
+    by (destruct M' as [([-> | ->] & -> & ->)|([-> | ->] & -> & ->)]; reflexivity).
   rewrite R. unfold report_objects.
-  apply (loop_spec (object_item nd) (spec_object_ok nd) (fun x => Some (first_href x)) VPaths r _ _ S N).
+  apply (loop_spec (object_item g nd) (spec_object_ok nd) (fun x => Some (first_href x)) VPaths r _ _ S N).
   - apply object_item_ok.
   - apply object_item_val.
   - destruct M as [([-> | ->] & ->)|([-> | ->] & ->)]; reflexivity.
@@ -552,20 +557,21 @@ Proof.
   destruct (populate_ok r); split; try discriminate; reflexivity.
 Qed.
 
-Lemma get_object_spec m mime parsed p r :
+Lemma get_object_spec m g mime parsed p r :
   success (h_status r) = true ->
-  (m = MGetCalendarObject /\ mime = "text/calendar" /\ parsed = h_ical \/
-   m = MGetAddressObject /\ mime = "text/vcard" /\ parsed = h_vcard) -> ok_spec m p r.
+  (m = MGetCalendarObject /\ mime = "text/calendar" /\ parsed = h_ical /\ g = true \/
+   m = MGetAddressObject /\ mime = "text/vcard" /\ parsed = h_vcard /\ g = false) -> ok_spec m p r.
 Proof.
   intros S M.
-  assert (run m p (Resp r) = get_object mime parsed p (Resp r) /\
+  assert (run m p (Resp r) = get_object g mime parsed p (Resp r) /\
           interpretable m p r = (negb (h_ct_err r) && String.eqb (lower (h_ct r)) mime && is_lgood (parsed r) && populate_ok r) /\
           spec_value m p r = VPaths [populate_path r p]) as (R & I & V)
-    by (destruct M as [(-> & -> & ->)|(-> & -> & ->)]; auto).
+    by (destruct M as [(-> & -> & -> & ->)|(-> & -> & -> & ->)]; auto).
   unfold ok_spec. rewrite R, I, V. unfold get_object. rewrite client_do_resp, S. cbn [cbind].
   destruct (h_ct_err r); cbn [negb andb]; [split; [discriminate|reflexivity]|].
   destruct (String.eqb (lower (h_ct r)) mime); cbn [negb andb]; [|split; [discriminate|reflexivity]].
-  destruct (parsed r); cbn [is_lgood andb]; try (split; [discriminate|reflexivity]).
+  destruct (parsed r); cbn [is_lgood andb]; try (split; [discriminate|reflexivity]);
+    try (split; [discriminate|destruct g; reflexivity]).
   split.
   - intros H Q. rewrite Q, H. reflexivity.
   - intros H. rewrite H. destruct (h_reqset r); reflexivity.
@@ -596,16 +602,16 @@ Proof.
   - apply plain_spec; auto 7.
   - apply (find_homeset_spec MFindCalendarHomeSet n_cal_home); auto.
   - apply (find_collections_spec MFindCalendars n_calendar n_cal_desc n_cal_size n_cal_supp dec_compset); auto.
-  - apply (report_objects_spec MQueryCalendar n_cal_data); auto.
-  - apply (report_objects_spec MMultiGetCalendar n_cal_data); auto.
-  - apply (get_object_spec MGetCalendarObject "text/calendar" h_ical); auto.
+  - apply (report_objects_spec MQueryCalendar true n_cal_data); auto.
+  - apply (report_objects_spec MMultiGetCalendar true n_cal_data); auto.
+  - apply (get_object_spec MGetCalendarObject true "text/calendar" h_ical); auto 6.
   - apply put_object_spec; auto.
   - apply has_support_spec; auto.
   - apply (find_homeset_spec MFindAddressBookHomeSet n_card_home); auto.
   - apply (find_collections_spec MFindAddressBooks n_addressbook n_card_desc n_card_size n_card_supp dec_addrdata); auto 6.
-  - apply (report_objects_spec MQueryAddressBook n_card_data); auto.
-  - apply (report_objects_spec MMultiGetAddressBook n_card_data); auto.
-  - apply (get_object_spec MGetAddressObject "text/vcard" h_vcard); auto 6.
+  - apply (report_objects_spec MQueryAddressBook false n_card_data); auto 6.
+  - apply (report_objects_spec MMultiGetAddressBook false n_card_data); auto 6.
+  - apply (get_object_spec MGetAddressObject false "text/vcard" h_vcard); auto 7.
   - apply put_object_spec; auto.
   - apply sync_spec; auto.
 Qed.
@@ -634,31 +640,34 @@ Qed.
 
 (** * No panic *)
 
-Lemma dt_ms r ms : decoders_total (Resp r) = true -> spec_ms r = Some ms -> ms_panic_free ms = true.
+Lemma dt_ms r ms :
+  vcard_decoder_total (Resp r) = true -> spec_ms r = Some ms -> ms_panic_free n_card_data ms = true.
 Proof.
-  unfold decoders_total, spec_ms. intros H. apply andb_true_iff in H. destruct H as [_ H].
+  unfold vcard_decoder_total, spec_ms. intros H. apply andb_true_iff in H. destruct H as [_ H].
   destruct (h_xml r) as [|t]; [discriminate|]. intros E. rewrite E in H. exact H.
 Qed.
 
-Lemma get_object_np mime parsed p r :
-  h_reqset r = true -> is_lpanic (parsed r) = false -> get_object mime parsed p (Resp r) <> CPanic.
+Lemma get_object_np g mime parsed p r :
+  h_reqset r = true -> g = true \/ is_lpanic (parsed r) = false ->
+  get_object g mime parsed p (Resp r) <> CPanic.
 Proof.
   intros Q L. unfold get_object. rewrite client_do_resp.
   destruct (success (h_status r)); cbn [cbind]; [|discriminate].
   destruct (h_ct_err r); [discriminate|]. destruct (negb _); [discriminate|].
-  destruct (parsed r); try discriminate. rewrite Q. cbn [negb]. destruct (populate_ok r); discriminate.
+  destruct (parsed r); try discriminate.
+  - rewrite Q. cbn [negb]. destruct (populate_ok r); discriminate.
+  - destruct L as [->|L]; discriminate.
 Qed.
 
 Theorem run_no_panic m p s :
-  well_formed s = true -> decoders_total s = true -> run m p s <> CPanic.
+  well_formed s = true -> vcard_decoder_total s = true -> run m p s <> CPanic.
 Proof.
   intros W D. destruct s as [|r]; [rewrite run_transport_error; discriminate|].
   simpl in W.
   destruct (success (h_status r)) eqn:S; [|rewrite (run_failed_status m p r S); discriminate].
-  assert (is_lpanic (h_ical r) = false /\ is_lpanic (h_vcard r) = false) as [LI LV].
-  { unfold decoders_total in D. apply andb_true_iff in D. destruct D as [D _].
-    apply andb_true_iff in D. destruct D as [D1 D2]. split; now apply negb_true_iff. }
-  destruct m; try (apply get_object_np; assumption);
+  assert (is_lpanic (h_vcard r) = false) as LV.
+  { unfold vcard_decoder_total in D. apply andb_true_iff in D. destruct D as [D _]. now apply negb_true_iff. }
+  destruct m; try (apply get_object_np; auto; fail);
     unfold_run; rewrite ?do_ms_resp, ?client_do_resp, S; cbn [cbind];
     try (destruct (h_status r =? 207)%N; [|discriminate]);
     try (destruct (spec_ms r) as [ms|] eqn:MS; [|discriminate]); cbn [cbind].
@@ -674,17 +683,15 @@ Proof.
   - discriminate.
   - destruct ms as [|x [|y l]]; try discriminate. np.
   - np. apply collect_np. intros x _. apply collection_item_no_panic.
-  - np. apply collect_np. intros x In. apply object_item_no_panic.
-    pose proof (dt_ms r ms D MS) as F. unfold ms_panic_free in F. rewrite forallb_forall in F. apply F, In.
-  - np. apply collect_np. intros x In. apply object_item_no_panic.
-    pose proof (dt_ms r ms D MS) as F. unfold ms_panic_free in F. rewrite forallb_forall in F. apply F, In.
+  - np. apply collect_np. intros x In. apply object_item_no_panic. auto.
+  - np. apply collect_np. intros x In. apply object_item_no_panic. auto.
   - destruct (populate_ok r); discriminate.
   - destruct (set_has (h_dav r) "1"); cbn [cbind]; [|discriminate]. destruct (set_has (h_dav r) "addressbook"); discriminate.
   - destruct ms as [|x [|y l]]; try discriminate. np.
   - np. apply collect_np. intros x _. apply collection_item_no_panic.
-  - np. apply collect_np. intros x In. apply object_item_no_panic.
+  - np. apply collect_np. intros x In. apply object_item_no_panic. right.
     pose proof (dt_ms r ms D MS) as F. unfold ms_panic_free in F. rewrite forallb_forall in F. apply F, In.
-  - np. apply collect_np. intros x In. apply object_item_no_panic.
+  - np. apply collect_np. intros x In. apply object_item_no_panic. right.
     pose proof (dt_ms r ms D MS) as F. unfold ms_panic_free in F. rewrite forallb_forall in F. apply F, In.
   - destruct (populate_ok r); discriminate.
   - np. apply collect_np. intros x _. apply sync_one_no_panic.
@@ -724,7 +731,7 @@ Proof.
 Qed.
 
 Theorem run_error_iff m p s :
-  well_formed s = true -> decoders_total s = true ->
+  well_formed s = true -> vcard_decoder_total s = true ->
   (c_is_err (run m p s) = true <-> must_fail m p s = true).
 Proof.
   intros W D. pose proof (run_no_panic m p s W D) as NP. split.
@@ -913,7 +920,7 @@ Qed.
 
 (** An implementation that agrees with the model meets the specification. *)
 Theorem agree_implies_spec_ok m p s o :
-  well_formed s = true -> decoders_total s = true ->
+  well_formed s = true -> vcard_decoder_total s = true ->
   model_agrees m p s o = true -> spec_ok m p s o = true.
 Proof.
   intros W D A. unfold model_agrees in A. apply andb_true_iff in A. destruct A as [R A].
@@ -926,17 +933,16 @@ Proof.
   - exact (run_no_panic m p s W D E).
 Qed.
 
-(** * Known finding ical_decoder_panic: go-ical's decoder panics on some texts *)
+(** * Repaired (c4d1d95): go-ical's decoder panics on some texts; the caldav client now
+    reports an error.  The former witness of the finding: *)
 
-Definition kf_witness : script :=
+Definition ical_panic_witness : script :=
   Resp (mkH 200 true "text/calendar" false "text/calendar" [] LNone true true true LPanic LBad XSyn).
 
-Theorem kf_ical_decoder_panic_refuted :
-  exists m p s, well_formed s = true /\ decoder_panics s = true /\
-    run m p s = CPanic /\ spec_ok m p s (mkObs 1 (model_out m p s)) = false.
-Proof.
-  exists MGetCalendarObject, "/cal/me/work/1.ics", kf_witness. vm_compute. auto.
-Qed.
+Example ical_decoder_panic_is_an_error :
+  run MGetCalendarObject "/cal/me/work/1.ics" ical_panic_witness = CErr EOther /\
+  must_fail MGetCalendarObject "/cal/me/work/1.ics" ical_panic_witness = true.
+Proof. vm_compute. auto. Qed.
 
 (** the hypothesis on the HTTPClient is needed as well: without Response.Request the
     object getters dereference nil *)
@@ -959,19 +965,19 @@ Theorem decode_pair_no_panic r : decode_pair r <> CPanic.
 Proof. unfold decode_pair. np. Qed.
 
 (** the same with the known-finding selector as the visible hypothesis *)
-Lemma dp_dt s : decoder_panics s = false -> decoders_total s = true.
-Proof. unfold decoder_panics. apply negb_false_iff. Qed.
+Lemma dp_dt s : vcard_decoder_panics s = false -> vcard_decoder_total s = true.
+Proof. unfold vcard_decoder_panics. apply negb_false_iff. Qed.
 
 Theorem run_no_panic_kf m p s :
-  well_formed s = true -> decoder_panics s = false -> run m p s <> CPanic.
+  well_formed s = true -> vcard_decoder_panics s = false -> run m p s <> CPanic.
 Proof. intros W D. apply run_no_panic; auto using dp_dt. Qed.
 
 Theorem run_error_iff_kf m p s :
-  well_formed s = true -> decoder_panics s = false ->
+  well_formed s = true -> vcard_decoder_panics s = false ->
   (c_is_err (run m p s) = true <-> must_fail m p s = true).
 Proof. intros W D. apply run_error_iff; auto using dp_dt. Qed.
 
 Theorem agree_implies_spec_ok_kf m p s o :
-  well_formed s = true -> decoder_panics s = false ->
+  well_formed s = true -> vcard_decoder_panics s = false ->
   model_agrees m p s o = true -> spec_ok m p s o = true.
 Proof. intros W D. apply agree_implies_spec_ok; auto using dp_dt. Qed.
